@@ -154,22 +154,27 @@ def walkStarStore (σ : Subst) (store : List (Nat × Cst)) : List Ext1 :=
     | .diseq ps => some (ps.map fun q => (match apply σ (.var q.1) with | .var y => y | _ => q.1, apply σ q.2))
     | _ => none
 
+/-- `smap.reify(walk*(x))`: each free variable of the walked query term ↦ its reified `any` variable
+    (`base + i`, `i` = position of first occurrence); everything else as the substitution says -/
+def reifyMap (σ : Subst) (x : Term) (base : Nat) : Subst := fun y =>
+  match (freeVars (apply σ x)).idxOf? y with
+  | some i => .var (base + i)
+  | none => σ y
+
+/-- the substitution of the reified state: `r ∘ σ` -/
+def reifySubst (σ : Subst) (x : Term) (base : Nat) : Subst := fun y => apply (reifyMap σ x base) (σ y)
+
 /-- the final goal of `reify(x)`: `r = smap.reify(walk*(x))` binds every free variable of the walked
     query term to a new `any` variable; the store is replaced (through `with_cstore`: every old
     constraint is taken, every walked disequality added) by its walked disequalities. -/
 def reifyFinal (x : Term) : G :=
   .atom (liftRes fun st =>
-    let v := apply st.σ x
-    let fv := freeVars v
+    let fv := freeVars (apply st.σ x)
     let base := st.nextVar
-    -- r: each free variable ↦ its reified `any` variable
-    let r : Subst := fun y => match fv.idxOf? y with
-      | some i => .var (base + i)
-      | none => st.σ y
-    let r' : Subst := fun y => apply r (st.σ y)
     let cs := walkStarStore st.σ st.store
     let st1 := st.store.foldl (fun s p => (s.takeConstraint p.1).1) st
-    let st2 := cs.foldl (fun s c => s.withNewConstraint ord (.diseq c)) { st1 with σ := r', nextVar := base + fv.length }
+    let st2 := cs.foldl (fun s c => s.withNewConstraint ord (.diseq c))
+      { st1 with σ := reifySubst st.σ x base, nextVar := base + fv.length }
     .ok st2)
 
 /-- `reify(x)` -/
@@ -208,27 +213,38 @@ def allReified (st : State) (t : Term) : Bool :=
 /-- `LTerm::anyvars` (repaired: descends into compounds) as variable ids, with repetitions -/
 def anyvars (t : Term) : List Nat := t.vars
 
+/-- `ConstraintStore::purify(r)`: the disequalities all of whose variables are reified -/
+def purified (st : State) : List Ext1 :=
+  (st.store.filterMap fun p => match p.2 with | .diseq ps => some ps | _ => none).filter
+    fun ps => ps.all fun q => allReified st (.var q.1) && allReified st q.2
+
+/-- `normalize()`: `push_and_normalize` one by one into an empty store -/
+def normalizedCs (ord : Order) (cs : List Ext1) : List Ext1 :=
+  cs.foldl (fun (acc : List Ext1) c =>
+    if acc.any (fun s => State.subsumes ord s c) then acc
+    else (acc.filter fun s => !State.subsumes ord c s) ++ [c]) []
+
+/-- `walk_star(r)` of one disequality -/
+def walkCst (σ : Subst) (ps : Ext1) : Ext1 :=
+  ps.map fun q => (match apply σ (.var q.1) with | .var y => y | _ => q.1, apply σ q.2)
+
+/-- `DisequalityConstraint::operands()`: keys, and values that are variables -/
+def cstOperands (c : Ext1) : List Nat := c.flatMap fun q => q.1 :: (match q.2 with | .var y => [y] | _ => [])
+
+/-- `LResult::constraints()` for a term: indices of the reported constraints one of whose operands is a
+    variable of the term (`anyvars`: at any depth, through lists and compounds) -/
+def relevantTo (walked : List Ext1) (t : Term) : List Nat :=
+  (List.range walked.length).filter fun i =>
+    match walked[i]? with
+    | some c => (cstOperands c).any fun o => (anyvars t).contains o
+    | none => false
+
 /-- `ConstraintStore::purify(r).normalize().walk_star(r)` and the per-variable `relevant` filter -/
 def mkAnswer (ord : Order) (qs : List Term) (st : State) : Answer :=
-  let diseqs : List Ext1 := st.store.filterMap fun p => match p.2 with | .diseq ps => some ps | _ => none
-  let purified := diseqs.filter fun ps => ps.all fun q => allReified st (.var q.1) && allReified st q.2
-  -- normalize: push_and_normalize one by one into an empty store
-  let normalized :=
-    purified.foldl (fun (acc : List Ext1) c =>
-      if acc.any (fun s => State.subsumes ord s c) then acc
-      else (acc.filter fun s => !State.subsumes ord c s) ++ [c]) []
-  let walked : List Ext1 := normalized.map fun ps =>
-    ps.map fun q => (match apply st.σ (.var q.1) with | .var y => y | _ => q.1, apply st.σ q.2)
+  let walked : List Ext1 := (normalizedCs ord (purified st)).map (walkCst st.σ)
   let terms := qs.map (apply st.σ)
-  -- operands(): keys, and values that are variables
-  let operands (c : Ext1) : List Nat := c.flatMap fun q => q.1 :: (match q.2 with | .var y => [y] | _ => [])
-  let relevant := terms.map fun t =>
-    let av := anyvars t
-    (List.range walked.length).filter fun i =>
-      match walked[i]? with
-      | some c => (operands c).any fun o => av.contains o
-      | none => false
-  { terms, constraints := walked, relevant, anys := (terms.flatMap Term.vars).eraseDups,
+  { terms, constraints := walked, relevant := terms.map (relevantTo walked),
+    anys := (terms.flatMap Term.vars).eraseDups,
     withs := st.withs, takes := st.takes, stored := st.store.length }
 
 end Pv
